@@ -236,4 +236,22 @@ theorem maneuver_path (n : Network) (h : Reciprocal n) (l m : Nat) (e : Elem)
     · intro x hx
       exact b3 x (by rw [field_eq_get n .endLane m em hem]; exact hx)
 
+theorem mem_grp_pred : Rule.memIf .laneGroup .pred (some .laneGroup) [[.lanes, .pred, .group]] ∈ rules := by decide
+theorem mem_grp_succ : Rule.memIf .laneGroup .succ (some .laneGroup) [[.lanes, .succ, .group]] ∈ rules := by decide
+
+/-- **group_link_from_lanes**: in a reciprocal network the predecessor (successor) lane group of a lane
+group is the group of the predecessor (successor) of one of its own lanes — a group-level link is never
+free-standing -/
+theorem group_link_from_lanes (n : Network) (h : Reciprocal n) (g p : Nat) (e : Elem)
+    (hg : n.elems[g]? = some e) (kg : e.kind = .laneGroup) (kp : n.kindOf p = some .laneGroup) :
+    (p ∈ e.get .pred → ∃ l ∈ n.field .lanes g, ∃ l' ∈ n.field .pred l, p ∈ n.field .group l') ∧
+    (p ∈ e.get .succ → ∃ l ∈ n.field .lanes g, ∃ l' ∈ n.field .succ l, p ∈ n.field .group l') := by
+  constructor
+  · intro hp
+    have a := h _ mem_grp_pred g e hg kg p hp (by intro k' hk; cases hk; exact kp)
+    simpa [Network.eval, Network.path, List.mem_flatMap] using a
+  · intro hp
+    have a := h _ mem_grp_succ g e hg kg p hp (by intro k' hk; cases hk; exact kp)
+    simpa [Network.eval, Network.path, List.mem_flatMap] using a
+
 end Scenic.C20
